@@ -23,6 +23,7 @@
 //!   T r depth a...              (Quantile tries) DFS over alphabet a... to depth, from r
 //!   histogram ops (Type H<LEN> / CH<LEN>):
 //!   HR r x...  from_ranges      HW r a b  with_const_width     HF r x... find each
+//!   HRI r x... from_ranges fed by an unbounded iterator (x... then +inf forever), reports polls
 //!   HA r x...  add each         H+ r s  +=     H* r k  *=      HZ r  reset
 //!   M/K/S/O as above
 //!   X                           end of case
@@ -303,6 +304,17 @@ fn run_hist<H: HistT>(ops: &[Vec<&str>], out: &mut String) {
                     Err(m) => writeln!(out, "p {} {}", idx, m).unwrap(),
                 }
             }
+            "HRI" => {
+                let vals = pfs(&op[2..]);
+                match guarded(|| H::h_from_ranges_unbounded(vals, H::LEN + 1000)) {
+                    Ok((Ok(h), polls)) => {
+                        regs[reg(op[1])] = Some(h);
+                        writeln!(out, "r {} ok polls={}", idx, polls).unwrap();
+                    }
+                    Ok((Err(e), polls)) => writeln!(out, "r {} err {} polls={}", idx, e, polls).unwrap(),
+                    Err(m) => writeln!(out, "p {} {}", idx, m).unwrap(),
+                }
+            }
             "HW" => match guarded(|| H::h_const_width(pf(op[2]), pf(op[3]))) {
                 Ok(h) => regs[reg(op[1])] = Some(h),
                 Err(m) => writeln!(out, "p {} {}", idx, m).unwrap(),
@@ -455,7 +467,13 @@ fn dispatch(ty: &str, params: &[&str], ops: &[Vec<&str>], out: &mut String) -> b
         "H4" => h!(H4),
         "H7" => h!(H7),
         "H10" => h!(H10),
+        "H15" => h!(H15),
+        "H16" => h!(H16),
+        "H31" => h!(H31),
+        "H33" => h!(H33),
+        "H64" => h!(H64),
         "H100" => h!(H100),
+        "H127" => h!(H127),
         "Histogram10" => h!(average::Histogram10),
         #[cfg(feature = "nightly")]
         "CH1" => h!(average::histogram_const::Histogram<1>),
@@ -469,6 +487,18 @@ fn dispatch(ty: &str, params: &[&str], ops: &[Vec<&str>], out: &mut String) -> b
         "CH7" => h!(average::histogram_const::Histogram<7>),
         #[cfg(feature = "nightly")]
         "CH10" => h!(average::histogram_const::Histogram<10>),
+        #[cfg(feature = "nightly")]
+        "CH15" => h!(average::histogram_const::Histogram<15>),
+        #[cfg(feature = "nightly")]
+        "CH16" => h!(average::histogram_const::Histogram<16>),
+        #[cfg(feature = "nightly")]
+        "CH31" => h!(average::histogram_const::Histogram<31>),
+        #[cfg(feature = "nightly")]
+        "CH33" => h!(average::histogram_const::Histogram<33>),
+        #[cfg(feature = "nightly")]
+        "CH64" => h!(average::histogram_const::Histogram<64>),
+        #[cfg(feature = "nightly")]
+        "CH127" => h!(average::histogram_const::Histogram<127>),
         #[cfg(feature = "nightly")]
         "CH100" => h!(average::histogram_const::Histogram<100>),
         _ => false,
